@@ -75,6 +75,21 @@ ITER_FRAGMENT = [
     ("Iter_over_range", r"impl<'a, T> Iter<'a, T>", "over_range", "_root_.CircBuf.Iter.overRange"),
     ("Iter_len", r"impl<T> ExactSizeIterator for Iter<'_, T>", "len", "_root_.CircBuf.Iter.len"),
 ]
+# the draining iterator (`src/drain.rs`): its constructor, `read`, and the stepping methods.  `self` is a
+# `Drain { bufSize, rs, re, is, ie }` value named `d` (`buf_size`, `range.start/end`, `iter.start/end`); the
+# buffer behind `self.buf` is the state.  (`Drop for Drain` — guards dropped explicitly, the back-fill
+# `while` loop over `CircularSlicePtr` — is outside the subset: hand model + correspondence.)
+DRAIN_IMPL = "impl<'a, const N: usize, T> Drain<'a, N, T>"
+DRAIN_FRAGMENT = [
+    ("Drain_over_range", DRAIN_IMPL, "over_range", "_root_.CircBuf.Drain.new"),
+    ("Drain_read", DRAIN_IMPL, "read", "_root_.CircBuf.Drain.read"),
+    ("Drain_next", "impl<const N: usize, T> Iterator for Drain<'_, N, T>", "next", "_root_.CircBuf.Drain.next"),
+    ("Drain_next_back", "impl<const N: usize, T> DoubleEndedIterator for Drain<'_, N, T>", "next_back", "_root_.CircBuf.Drain.nextBack"),
+    ("Drain_len", "impl<const N: usize, T> ExactSizeIterator for Drain<'_, N, T>", "len", "fun d => pure (_root_.CircBuf.Drain.len d)"),
+]
+DRAIN_SIG = {"Drain_over_range": "Bound → Bound → M (Drain)", "Drain_read": "Drain → Nat → M (Elem)",
+             "Drain_next": "Drain → M (Option Elem × Drain)", "Drain_next_back": "Drain → M (Option Elem × Drain)",
+             "Drain_len": "Drain → M (Nat)"}
 PANIC_TAG = {
     "range start index exceeds maximum usize": "range_start_overflow",
     "range end index exceeds maximum usize": "range_end_overflow",
@@ -386,6 +401,16 @@ class Parser:
             self.eat()
             b = self.block()
             return ("unsafe", b)
+        if v == "|":
+            # closure `|x| expr`
+            self.eat()
+            names = []
+            while not self.at("|"):
+                names.append(self.eat(kind="id"))
+                if self.at(","):
+                    self.eat()
+            self.eat("|")
+            return ("closure", names, self.expr())
         if v == "match":
             self.eat()
             scrut = self.expr_nostruct()
@@ -487,9 +512,15 @@ class Emit:
         self.tmp = 0
         self.ndoc = 0            # documented panics seen so far in this function
         self.iter_mode = False   # `self` is an `Iter { right, left }` value named `it`
+        self.drain_mode = False  # `self` is a `Drain` value named `d`
         self.guards = set()   # local structs whose Drop impl drops a slice in place
         self.scope_guards = []  # guard values declared in the function body, in declaration order
         self.kinds = {}       # variable -> kind ('nat','slot','elem','view','range','pair:view','opt:nat',...)
+
+    def is_items(self, base):
+        """`self.items`, or `buf.items` for a reference `buf` to the buffer"""
+        return base == ("field", ("path", "self"), "items") or (
+            base[0] == "field" and base[2] == "items" and base[1][0] == "path" and self.kinds.get(base[1][1]) == "bufref")
 
     def doc_tag(self):
         tags = DOC_TAGS.get(self.fname, [])
@@ -517,6 +548,36 @@ class Emit:
             raise TErr(f"unknown name {n}")
         if k == "deref":
             return self.ex(e[1])
+        if k == "closure":
+            raise TErr("closure outside `.map(..)` on a range step")
+        if k == "selflit" and self.drain_mode:
+            vals, pre = {}, []
+            for fname, fe in e[1]:
+                if fname in ("buf", "phantom"):
+                    continue                      # the buffer is the state; `PhantomData`
+                if fe[0] == "range" and fe[1] is not None and fe[2] is not None:
+                    pa, a, _ = self.ex(fe[1])
+                    pb, b, _ = self.ex(fe[2])
+                    pre += pa + pb
+                    vals[fname] = (a, b)
+                else:
+                    p, v, kk = self.ex(fe)
+                    pre += p
+                    vals[fname] = (f"{par(v)}.1", f"{par(v)}.2") if kk == "range" else v
+            if set(vals) != {"buf_size", "range", "iter"} or isinstance(vals["buf_size"], tuple) \
+                    or not isinstance(vals["range"], tuple) or not isinstance(vals["iter"], tuple):
+                raise TErr("struct literal of an unknown shape")
+            return pre, (f"(⟨{vals['buf_size']}, {vals['range'][0]}, {vals['range'][1]}, "
+                         f"{vals['iter'][0]}, {vals['iter'][1]}⟩ : Drain)"), "drain"
+        if k == "field" and self.drain_mode:
+            if e[1] == ("path", "self") and e[2] == "buf_size":
+                return [], "d.bufSize", "nat"
+            if e[1] in (("field", ("path", "self"), "range"), ("field", ("path", "self"), "iter")) and e[2] in ("start", "end"):
+                return [], {"range": {"start": "d.rs", "end": "d.re"}, "iter": {"start": "d.is", "end": "d.ie"}}[e[1][2]][e[2]], "nat"
+        if k == "field" and e[1][0] == "path" and self.kinds.get(e[1][1]) == "bufref" and e[2] in ("size", "start"):
+            return [], f"(← getBuf).{e[2]}", "nat"
+        if k == "index" and self.is_items(e[1]) and e[2][0] != "range":
+            return self.ex_ref(("ref", True, ("index", ("field", ("path", "self"), "items"), e[2])))
         if k == "selflit":
             vals = {}
             pre = []
@@ -672,6 +733,17 @@ class Emit:
             else:
                 raise TErr("slice_take: unsupported range")
             return p + [f"let it : Iter := {{ it with {fld} := (View.{fn} it.{fld} {par(n)}).2 }}"], "()", "unit"
+        if name == "NonNull::from" and len(args) == 1:
+            p, v, kk = self.ex(args[0])
+            if kk != "bufref":
+                raise TErr("NonNull::from of something other than the buffer reference")
+            return p, "()", "bufref"
+        if name == "ptr::read" and len(args) == 1:
+            p, v, kk = self.ex(args[0])
+            if kk != "slot":
+                raise TErr("ptr::read of something other than a slot")
+            t = self.fresh("x")
+            return p + [f"let {t} ← readInit {v}"], t, "elem"
         if name == "Some":
             p, v, kk = self.ex(args[0])
             return p, f"some {par(v)}", "opt"
@@ -718,6 +790,34 @@ class Emit:
 
     def ex_mcall(self, e):
         recv, name, args = e[1], e[2], e[3]
+        if self.drain_mode:
+            if recv == ("field", ("path", "self"), "buf") and name in ("as_ref", "as_mut") and not args:
+                return [], "()", "bufref"
+            if recv == ("field", ("path", "self"), "iter") and name == "len" and not args:
+                return [], "d.ie - d.is", "nat"          # `Range<usize>::len` (saturating)
+            if recv == ("field", ("path", "self"), "range") and name == "len" and not args:
+                return [], "d.re - d.rs", "nat"
+            if recv == ("path", "self") and name == "read" and len(args) == 1:
+                p, v, _ = self.ex(args[0])
+                t = self.fresh("r")
+                return p + [f"let {t} ← Gen.Drain_read d {par(v)}"], t, "elem"
+            if (name == "map" and len(args) == 1 and args[0][0] == "closure" and len(args[0][1]) == 1
+                    and recv[0] == "mcall" and recv[1] == ("field", ("path", "self"), "iter")
+                    and recv[2] in ("next", "next_back") and not recv[3]):
+                # `self.iter.next().map(|i| f(i))`: the range is stepped first (`self` is updated), then the
+                # closure runs on the index it produced
+                step = "Drain.stepFront" if recv[2] == "next" else "Drain.stepBack"
+                st = self.fresh("st")
+                var = args[0][1][0]
+                saved = dict(self.kinds)
+                self.kinds[var] = "nat"
+                p, v, kk = self.ex(args[0][2])
+                self.kinds = saved
+                r = self.fresh("r")
+                lines = [f"let {st} := {step} d", f"let d := {st}.2",
+                         f"let {r} ← (match {st}.1 with", f"  | some {lean_name(var)} => do"]
+                lines += ["      " + l for l in p] + [f"      pure (some {par(v)})", "  | none => pure none)"]
+                return lines, r, "opt"
         if recv == ("path", "self"):
             pre, vals = [], []
             if name in EXTERN:
@@ -883,7 +983,8 @@ class Emit:
                 if kk != "view":
                     raise TErr("assignment of a non-slice to an iterator field")
                 return p + [f"let it : Iter := {{ it with {lhs[2]} := {v} }}"]
-            if not (lhs[0] == "field" and lhs[1] == ("path", "self") and lhs[2] in ("size", "start")):
+            via_ref = lhs[0] == "field" and lhs[1][0] == "path" and self.kinds.get(lhs[1][1]) == "bufref"
+            if not (lhs[0] == "field" and (lhs[1] == ("path", "self") or via_ref) and lhs[2] in ("size", "start")):
                 raise TErr("assignment to something other than self.size / self.start")
             setter = "setSize" if lhs[2] == "size" else "setStart"
             if op == "=":
@@ -1163,7 +1264,10 @@ def parse_sig(sig, iter_mode=False):
     plist_items.append(cur)
     for p in [x.strip() for x in plist_items if x.strip()]:
         if p in ("&self", "&mut self", "self", "mut self"):
-            if iter_mode:
+            if iter_mode == "drain":
+                params.append(("d", "Drain", "drain"))
+                recv_mut = p == "&mut self"
+            elif iter_mode:
                 params.append(("it", "Iter", "iter"))
                 recv_mut = p == "&mut self"
             continue
@@ -1175,13 +1279,20 @@ def parse_sig(sig, iter_mode=False):
             params.append((n, "Elem", "elem"))
         elif t == "Range<usize>":
             params.append((n, "Nat × Nat", "range"))
-        elif iter_mode and re.fullmatch(r"&('\w+ )?CircularBuffer<N, T>", t):
+        elif iter_mode and re.fullmatch(r"&('\w+ )?(mut )?CircularBuffer<N, T>", t):
             params.append((n, None, "bufref"))
         elif iter_mode and t == "R":
             params.append((n, None, "rangebounds"))
         else:
             raise TErr(f"parameter type {t}")
-    if iter_mode:
+    if iter_mode == "drain":
+        if ret == "Self":
+            return params, ("Drain", "drain")
+        if ret == "T":
+            return params, ("Elem", "elem")
+        if ret == "Option<Self::Item>" and recv_mut:
+            return params, ("Option Elem × Drain", "opt!")     # `&mut self`: the updated value is returned too
+    elif iter_mode:
         if ret == "Self":
             return params, ("Iter", "iter")
         if ret in (None, "()") and recv_mut:
@@ -1214,6 +1325,33 @@ def translate_iter(src, gname, impl_re, fname, fragment):
         rkind = "iter"
     ps = "".join(f" ({lean_name(n)} : {t})" for n, t in lean_params)
     head = f"/-- translated from `fn {fname}` ({impl_re or 'free function of iter.rs'}) -/\ndef Gen.{gname}{ps} : M ({rty}) := do"
+    return head + "\n" + "\n".join(ind(lines)), rkind, [t for _, t in lean_params], rty
+
+
+def translate_drain(src, gname, impl_re, fname, fragment):
+    """a function of `drain.rs`: `self` (if any) is a `Drain` value `d`; the buffer is the state; a
+    `RangeBounds` argument is the pair of bounds `sb eb`"""
+    sig, body = find_fn_in(src, impl_re, fname)
+    body = re.sub(r"#!?\[[^\]]*\]", "", body)
+    params, (rty, rkind) = parse_sig(sig, iter_mode="drain")
+    ast = Parser(tokenize(body)).block()
+    em = Emit(gname, fragment)
+    em.drain_mode = True
+    lean_params = []
+    for n, t, kk in params:
+        em.kinds[n] = kk
+        if kk == "rangebounds":
+            lean_params += [("sb", "Bound"), ("eb", "Bound")]
+        elif kk != "bufref":
+            lean_params.append((n, t))
+    lines = em.body(ast[1], ast[2])
+    if rkind == "opt!":
+        m = re.fullmatch(r"(\s*)pure \((.*)\)", lines[-1])
+        if not m:
+            raise TErr("`&mut self` method whose result is not the tail of the body")
+        lines[-1] = f"{m.group(1)}pure ({m.group(2)}, d)"
+    ps = "".join(f" ({lean_name(n)} : {t})" for n, t in lean_params)
+    head = f"/-- translated from `fn {fname}` ({impl_re}) -/\ndef Gen.{gname}{ps} : M ({rty}) := do"
     return head + "\n" + "\n".join(ind(lines)), rkind, [t for _, t in lean_params], rty
 
 
@@ -1393,6 +1531,27 @@ def generate(force_fallback):
             defs.append(f"/-- `{gname}` could not be translated on this run ({why}): the hand model\'s definition -/\n"
                         f"def Gen.{gname} : {ITER_SIG[gname]} := {model}")
         done[gname] = 1
+    # ---- the draining iterator (src/drain.rs)
+    dpath = os.path.join(os.path.dirname(os.path.abspath(sys.argv[1])), "drain.rs")
+    try:
+        dsrc = strip_comments(open(dpath).read())
+    except OSError:
+        dsrc = ""
+    drain_names = {g for g, _, _, _ in DRAIN_FRAGMENT}
+    for gname, impl_re, fname, model in DRAIN_FRAGMENT:
+        try:
+            if gname in force_fallback:
+                raise TErr(force_fallback[gname])
+            text, rk, ptys, rty = translate_drain(dsrc, gname, impl_re, fname, set(done) | drain_names)
+            if " → ".join(ptys + [f"M ({rty})"]) != DRAIN_SIG[gname]:
+                raise TErr(f"signature changed: {' → '.join(ptys + [rty])}")
+            defs.append(text)
+        except Exception as e:
+            why = (str(e) if isinstance(e, TErr) else f"internal: {type(e).__name__}: {e}").replace("-/", "- /")
+            failed.append((gname, why))
+            defs.append(f"/-- `{gname}` could not be translated on this run ({why}): the hand model\'s definition -/\n"
+                        f"def Gen.{gname} : {DRAIN_SIG[gname]} := {model}")
+        done[gname] = 1
     L = ["-- GENERATED by /verif/translate/t3_core.py from /repo/src/lib.rs — do not edit.",
          "import CircBuf.GenPrelude", "import CircBuf.Model", "set_option linter.unusedVariables false", "namespace CircBuf", ""]
     L.append("\n\n".join(defs))
@@ -1409,7 +1568,7 @@ def generate(force_fallback):
         open(out, "w").write(text)
     ntr = len(done) - len(failed)
     _REPORT["failed"] = failed
-    _REPORT["summary"] = f"T3: {'unchanged' if old == text else 'regenerated'}: {ntr}/{len(FRAGMENT) + len(ITER_FRAGMENT)} functions translated"
+    _REPORT["summary"] = f"T3: {'unchanged' if old == text else 'regenerated'}: {ntr}/{len(FRAGMENT) + len(ITER_FRAGMENT) + len(DRAIN_FRAGMENT)} functions translated"
     _REPORT["rc"] = 0 if ntr else 3
 
 
